@@ -139,7 +139,8 @@ def one(kind, sername, beh, is_async, rp, var=0, keyed=False):
             pending["f"] = fut
             return fut
         sess.define(Boom, "com.myapp.boom")
-        sess.register(ep, "com.myapp.proc1", options=RegisterOptions(details_arg="details"))
+        # (check_types wraps the endpoint: it must still get exactly the caller's positional and keyword arguments)
+        sess.register(ep, "com.myapp.proc1", options=RegisterOptions(details_arg="details"), check_types=(var % 3 == 2))
         fw.settle()
         reg = [m for m in conn.poll() if isinstance(m, message.Register)]
         conn.send(message.Registered(reg[0].request, 555))
